@@ -366,7 +366,7 @@ func finish(c *Ctx, pd *propDef) int {
 		}
 		if i := strings.Index(name, "/"); i >= 0 {
 			rest := name[i+1:]
-			for _, k := range []string{"post@", "at-eval@", "pre@", "trace@", "arity@", "inv-init@", "inv-keep@", "frame:result@", "lemma@", "byte@", "on-call@", "on-store@", "on-map-update@", "on-map-delete@", "no-store@", "operand-kept@", "exact:"} {
+			for _, k := range []string{"post@", "at-eval@", "pre@", "trace@", "arity@", "inv-init@", "inv-keep@", "variant@", "frame:result@", "lemma@", "byte@", "on-call@", "on-store@", "on-map-update@", "on-map-delete@", "no-store@", "operand-kept@", "exact:"} {
 				if strings.HasPrefix(rest, k) {
 					vanished = append(vanished, name)
 				}
